@@ -331,14 +331,375 @@ Proof.
   rewrite dec7_enc7; [reflexivity|exact Hlen|]. revert Hb. apply Forall_impl. intros x Hx. lia.
 Qed.
 
+Lemma m2l_tiles d s M wl wh : 0 < s -> Permutation M (cube_shifts d 0 (s - 1)) ->
+  Permutation (flat_map (fun o => if negb (too_close o) then shift_by (map (fun x => x * s) o) M else []) (cube_shifts d wl wh))
+              (region d s wl wh).
+Proof.
+  intros Hs HM.
+  pose proof (tile_gen d s Hs M (perm_cs_nodup _ _ _ _ HM) (perm_cs_in _ _ _ _ HM) (fun o => negb (too_close o)) wl wh) as H.
+  cbv beta in H. unfold region. erewrite filter_ext; [exact H|].
+  intros v. cbv beta. rewrite too_close_inbox, inbox_div by exact Hs.
+  replace (-1 * s) with (- s) by ring. replace ((1 + 1) * s - 1) with (2 * s - 1) by ring. reflexivity.
+Qed.
+
 Lemma m2l_window d s M wl wh : 0 < s -> -3 <= wl -> wh <= 3 -> Permutation M (cube_shifts d 0 (s - 1)) ->
   Permutation (flat_map (fun code => shift_by (map (fun o => o * s) (dec7 d code)) M) (window_codes d wl wh))
               (region d s wl wh).
 Proof.
   intros Hs H1 H2 HM.
   rewrite (window_codes_flat d wl wh (fun o => shift_by (map (fun x => x * s) o) M)) by assumption.
-  pose proof (tile_gen d s Hs M (perm_cs_nodup _ _ _ _ HM) (perm_cs_in _ _ _ _ HM) (fun o => negb (too_close o)) wl wh) as H.
-  cbv beta in H. unfold region. erewrite filter_ext; [exact H|].
-  intros v. cbv beta. rewrite too_close_inbox, inbox_div by exact Hs.
-  replace (-1 * s) with (- s) by ring. replace ((1 + 1) * s - 1) with (2 * s - 1) by ring. reflexivity.
+  apply m2l_tiles; assumption.
 Qed.
+
+(* ------------------------------------------------------------------ *)
+(* the telescope of the level regions                                  *)
+(* ------------------------------------------------------------------ *)
+Definition csize (k j : Z) : Z := 2 ^ (k + 3 - j).
+Definition win_of (k j : Z) : Z * Z := if k =? 0 then (-3, 3) else if j =? 3 then (-3, 2) else (-2, 3).
+Definition lvl_region (d : nat) (k j : Z) : shifts := region d (csize k j) (fst (win_of k j)) (snd (win_of k j)).
+(* everything of the repetition cube that is not adjacent at level j *)
+Definition acc_region (d : nat) (k j : Z) : shifts :=
+  filter (fun v => negb (inbox (- csize k j) (2 * csize k j - 1) v))
+         (cube_shifts d (fst (repetition_interval k)) (snd (repetition_interval k))).
+
+Lemma zrange_nil lo hi : hi < lo -> zrange lo hi = [].
+Proof. intros Hlt. unfold zrange. replace (Z.to_nat (hi - lo + 1)) with 0%nat by lia. reflexivity. Qed.
+
+Lemma zrange_cons lo hi : lo <= hi -> zrange lo hi = lo :: zrange (lo + 1) hi.
+Proof.
+  intros Hle. unfold zrange.
+  replace (Z.to_nat (hi - lo + 1)) with (S (Z.to_nat (hi - (lo + 1) + 1))) by lia.
+  cbn [seq map]. f_equal; [lia|]. rewrite <- seq_shift, map_map. apply map_ext. intros k. lia.
+Qed.
+
+Lemma zrange_snoc lo hi : lo <= hi + 1 -> zrange lo (hi + 1) = zrange lo hi ++ [hi + 1].
+Proof.
+  intros Hle. unfold zrange.
+  replace (Z.to_nat (hi + 1 - lo + 1)) with (S (Z.to_nat (hi - lo + 1))) by lia.
+  rewrite seq_S, map_app. cbn [map]. f_equal. f_equal. lia.
+Qed.
+
+Lemma csize_pos k j : j <= k + 3 -> 0 < csize k j.
+Proof. intros H. unfold csize. apply Z.pow_pos_nonneg; lia. Qed.
+
+Lemma csize_double k j : j < k + 3 -> csize k j = 2 * csize k (j + 1).
+Proof.
+  intros H. unfold csize. replace (k + 3 - j) with (Z.succ (k + 3 - (j + 1))) by lia.
+  rewrite Z.pow_succ_r by lia. reflexivity.
+Qed.
+
+Lemma csize_le k j : 3 <= j -> j <= k + 3 -> csize k j <= 2 ^ k.
+Proof. intros H1 H2. unfold csize. apply Z.pow_le_mono_r; lia. Qed.
+
+Lemma tele_base d k : 0 <= k -> lvl_region d k 3 = acc_region d k 3.
+Proof.
+  intros Hk. unfold lvl_region, acc_region, region, win_of, csize.
+  replace (k + 3 - 3) with k by ring.
+  destruct (Z.eq_dec k 0) as [->|Hne]; [reflexivity|].
+  rewrite repetition_interval_pos by lia. destruct (k =? 0) eqn:E; [lia|]. cbn [Z.eqb fst snd].
+  replace ((2 + 1) * 2 ^ k - 1) with (3 * 2 ^ k - 1) by ring. reflexivity.
+Qed.
+
+Lemma tele_regions d k n : 0 <= k -> Z.of_nat n <= k ->
+  Permutation (flat_map (lvl_region d k) (zrange 3 (3 + Z.of_nat n))) (acc_region d k (3 + Z.of_nat n)).
+Proof.
+  intros Hk. induction n as [|n IH]; intros Hn.
+  - cbn [Z.of_nat]. change (zrange 3 (3 + 0)) with [3]. cbn [flat_map]. rewrite app_nil_r, Z.add_0_r.
+    rewrite tele_base by exact Hk. apply Permutation_refl.
+  - rewrite Nat2Z.inj_succ in *. set (j := 3 + Z.of_nat n) in *.
+    replace (3 + Z.succ (Z.of_nat n)) with (j + 1) by lia.
+    rewrite zrange_snoc by lia. rewrite flat_map_app. cbn [flat_map]. rewrite app_nil_r.
+    rewrite IH by lia. clear IH.
+    assert (Hk1 : 1 <= k) by lia.
+    pose proof (csize_pos k (j + 1) ltac:(lia)) as Hpos.
+    pose proof (csize_double k j ltac:(lia)) as Hdbl.
+    pose proof (csize_le k j ltac:(lia) ltac:(lia)) as Hle.
+    unfold lvl_region, acc_region, region, win_of.
+    destruct (k =? 0) eqn:E0; [lia|]. destruct (j + 1 =? 3) eqn:E3; [lia|]. cbn [fst snd].
+    rewrite repetition_interval_pos by lia. cbn [fst snd].
+    set (s := csize k (j + 1)) in *. rewrite Hdbl.
+    replace (-2 * s) with (- (2 * s)) by ring. replace ((3 + 1) * s - 1) with (2 * (2 * s) - 1) by ring.
+    apply Permutation_sym. apply nested_split; lia.
+Qed.
+
+Lemma perm_flat_map_pointwise {A B} (f g : A -> list B) l :
+  (forall a, In a l -> Permutation (f a) (g a)) -> Permutation (flat_map f l) (flat_map g l).
+Proof.
+  induction l as [|a l IH]; intros H; cbn [flat_map]; [apply Permutation_refl|].
+  apply Permutation_app; [apply H; left; reflexivity|]. apply IH. intros x Hx. apply H. right; exact Hx.
+Qed.
+
+(* the d-dimensional window telescope *)
+Theorem window_telescope : forall d k, 0 <= k ->
+  Permutation (flat_map (lvl_region d k) (zrange 3 (k + 3)))
+              (far_shifts d (fst (repetition_interval k)) (snd (repetition_interval k))).
+Proof.
+  intros d k Hk. pose proof (tele_regions d k (Z.to_nat k) Hk ltac:(lia)) as H.
+  replace (3 + Z.of_nat (Z.to_nat k)) with (k + 3) in H by lia.
+  rewrite H. unfold acc_region, far_shifts, csize. replace (k + 3 - (k + 3)) with 0 by ring.
+  change (2 ^ 0) with 1. change (2 * 1 - 1) with 1. change (- (1)) with (-1).
+  erewrite filter_ext; [apply Permutation_refl|]. intros v. cbv beta. rewrite <- too_close_inbox. reflexivity.
+Qed.
+
+(* ------------------------------------------------------------------ *)
+(* running the call sequence                                           *)
+(* ------------------------------------------------------------------ *)
+Lemma upd_same f j v : upd f j v j = v.
+Proof. unfold upd. rewrite Z.eqb_refl. reflexivity. Qed.
+
+Lemma upd_other f j v i : i <> j -> upd f j v i = f i.
+Proof. intros H. unfold upd. destruct (i =? j) eqn:E; [lia|reflexivity]. Qed.
+
+Lemma cube_zero d : cube_shifts d 0 0 = [repeat 0 d].
+Proof.
+  unfold cube_shifts. induction d as [|d IH]; [reflexivity|].
+  cbn [repeat odometer]. change (zrange 0 0) with [0]. cbn [flat_map]. rewrite IH. reflexivity.
+Qed.
+
+Section Run.
+Variable d : nat.
+Hypothesis Hd : (0 < d)%nat.
+Variable k : Z.
+Hypothesis Hk : 0 <= k.
+
+Let allc : list Z := zseq (Z.shiftl 1 (dz d)).
+
+(* upward phase *)
+Lemma m_phase ch n : Z.of_nat n <= k ->
+  let st := fold_left (tstep d k) (map (fun l => TM2M l allc) (rev (zrange (k + 3 - Z.of_nat n) (k + 2))))
+                      (tstep d k tinit (TM2M_base (k + 3) ch)) in
+  (forall j, tL st j = []) /\ tres st = [] /\
+  (forall j, j < k + 3 - Z.of_nat n -> tM st j = []) /\
+  (forall j, k + 3 - Z.of_nat n <= j <= k + 3 -> Permutation (tM st j) (cube_shifts d 0 (csize k j - 1))).
+Proof.
+  induction n as [|n IH]; intros Hn.
+  - cbn [Z.of_nat]. rewrite Z.sub_0_r. rewrite zrange_nil by lia. cbn [rev map fold_left tstep tinit tM tL tres].
+    repeat split.
+    + intros j Hj. apply upd_other. lia.
+    + intros j Hj. assert (j = k + 3) as -> by lia. rewrite upd_same. unfold csize.
+      replace (k + 3 - (k + 3)) with 0 by ring. change (2 ^ 0 - 1) with 0. rewrite cube_zero. apply Permutation_refl.
+  - rewrite Nat2Z.inj_succ in *. specialize (IH ltac:(lia)).
+    set (j0 := k + 3 - Z.of_nat n) in *.
+    replace (k + 3 - Z.succ (Z.of_nat n)) with (j0 - 1) by lia.
+    rewrite (zrange_cons (j0 - 1)) by lia. replace (j0 - 1 + 1) with j0 by ring.
+    cbn [rev]. rewrite map_app, fold_left_app. cbn [map fold_left].
+    set (st := fold_left _ _ _) in *. destruct IH as (HL & HR & HM0 & HM).
+    cbn [tstep tM tL tres]. repeat split; try assumption.
+    + intros j Hj. rewrite upd_other by lia. apply HM0. lia.
+    + intros j Hj. destruct (Z.eq_dec j (j0 - 1)) as [->|Hne].
+      * rewrite upd_same. rewrite HM0 by lia. cbn [app].
+        unfold child_offset. replace (k + 2 - (j0 - 1)) with (k + 3 - j0) by ring. fold (csize k j0).
+        rewrite (csize_double k (j0 - 1)) by lia. replace (j0 - 1 + 1) with j0 by ring.
+        unfold allc. rewrite Z.shiftl_mul_pow2 by apply dz_nonneg. rewrite Z.mul_1_l.
+        apply m2m_step; [exact Hd|apply csize_pos; lia|apply HM; lia].
+      * rewrite upd_other by exact Hne. apply HM. lia.
+Qed.
+
+(* M2L phase: one call per level *)
+Lemma m2l_fold (codes : Z -> list Z) ls : NoDup ls -> forall st,
+  let st' := fold_left (tstep d k) (map (fun l => TM2L l (codes l)) ls) st in
+  (forall j, tM st' j = tM st j) /\ tres st' = tres st /\
+  (forall j, In j ls ->
+     tL st' j = tL st j ++ flat_map (fun code => shift_by (map (fun o => o * 2 ^ (k + 3 - j)) (dec7 d code)) (tM st j)) (codes j)) /\
+  (forall j, ~ In j ls -> tL st' j = tL st j).
+Proof.
+  induction ls as [|a ls IH]; intros HN st.
+  - cbn [map fold_left]. repeat split; try reflexivity. intros j [].
+  - inversion HN as [|? ? Hna HN']; subst. cbn [map fold_left].
+    specialize (IH HN' (tstep d k st (TM2L a (codes a)))). cbv zeta in IH. cbv zeta.
+    set (st' := fold_left _ _ _) in *. destruct IH as (HM & HR & HLin & HLout).
+    cbn [tstep tM tL tres] in HM, HR, HLin, HLout. repeat split.
+    + exact HM.
+    + exact HR.
+    + intros j [<-|Hj].
+      * rewrite HLout by exact Hna. apply upd_same.
+      * rewrite HLin by exact Hj. rewrite upd_other; [reflexivity|]. intros ->. contradiction.
+    + intros j Hj. rewrite HLout by (intros H; apply Hj; right; exact H).
+      apply upd_other. intros ->. apply Hj. left; reflexivity.
+Qed.
+
+(* downward phase: child 0 has the origin of its parent *)
+Lemma shift_zero j L : (forall v, In v L -> length v = d) ->
+  shift_by (map Z.opp (child_offset d k j 0)) L = L.
+Proof.
+  intros HL. unfold shift_by. rewrite <- (map_id L) at 2. apply map_ext_in. intros v Hv.
+  specialize (HL v Hv). unfold child_offset. rewrite unbox_nonpos by lia.
+  assert (HZ : Forall (fun x => x = 0) (map Z.opp (map (fun b => b * 2 ^ (k + 2 - j)) (rev (repeat 0 d))))).
+  { rewrite !Forall_map. apply Forall_forall. intros x Hx. apply in_rev in Hx. apply repeat_spec in Hx. subst x. reflexivity. }
+  assert (Hlen : length (map Z.opp (map (fun b => b * 2 ^ (k + 2 - j)) (rev (repeat 0 d)))) = length v).
+  { rewrite !map_length, rev_length, repeat_length. symmetry. exact HL. }
+  revert HZ Hlen. generalize (map Z.opp (map (fun b => b * 2 ^ (k + 2 - j)) (rev (repeat 0 d)))). clear.
+  induction v as [|x v IH]; intros [|z zs] HZ Hlen; cbn [length map2] in *; try lia; [reflexivity|].
+  inversion HZ as [|? ? Hz HZ']; subst. rewrite IH by (try assumption; lia). reflexivity.
+Qed.
+
+Lemma l2l_fold st n : (forall j v, In v (tL st j) -> length v = d) ->
+  let st' := fold_left (tstep d k) (map (fun l => TL2L l [0]) (zrange 3 (2 + Z.of_nat n))) st in
+  tres st' = tres st /\
+  (forall j, 3 + Z.of_nat n < j -> tL st' j = tL st j) /\
+  Permutation (tL st' (3 + Z.of_nat n)) (flat_map (tL st) (zrange 3 (3 + Z.of_nat n))).
+Proof.
+  intros Hlen. induction n as [|n IH].
+  - cbn [Z.of_nat]. change (zrange 3 (2 + 0)) with (@nil Z). change (zrange 3 (3 + 0)) with [3].
+    cbn [map fold_left flat_map]. rewrite app_nil_r. repeat split. apply Permutation_refl.
+  - rewrite Nat2Z.inj_succ. cbv zeta in IH. set (j0 := 3 + Z.of_nat n) in *.
+    replace (2 + Z.succ (Z.of_nat n)) with (2 + Z.of_nat n + 1) by lia.
+    replace (3 + Z.succ (Z.of_nat n)) with (j0 + 1) by lia.
+    rewrite zrange_snoc by lia. rewrite map_app, fold_left_app. replace (2 + Z.of_nat n + 1) with j0 by lia.
+    cbn [map fold_left]. set (st1 := fold_left _ _ st) in *. destruct IH as (HR & Hout & HP).
+    cbn [tstep tM tL tres]. repeat split.
+    + exact HR.
+    + intros j Hj. rewrite upd_other by lia. apply Hout. lia.
+    + rewrite upd_same. cbn [flat_map]. rewrite app_nil_r.
+      rewrite shift_zero.
+      * rewrite Hout by lia. rewrite zrange_snoc by lia. rewrite flat_map_app. cbn [flat_map]. rewrite app_nil_r.
+        rewrite Permutation_app_comm. apply Permutation_app_tail. exact HP.
+      * intros v Hv. apply (Permutation_in _ HP) in Hv. apply in_flat_map in Hv.
+        destruct Hv as (j & _ & Hv). apply (Hlen j v Hv).
+Qed.
+End Run.
+
+(* ------------------------------------------------------------------ *)
+(* the main theorem                                                    *)
+(* ------------------------------------------------------------------ *)
+Lemma top_M2L_eq d k : 0 <= k ->
+  top_M2L d k = map (fun l => TM2L l (window_codes d (fst (win_of k l)) (snd (win_of k l)))) (zrange 3 (k + 3)).
+Proof.
+  intros Hk. unfold top_M2L, win_of. destruct (k =? 0) eqn:E.
+  - assert (k = 0) as -> by lia. reflexivity.
+  - apply map_ext. intros l. destruct (l =? 3); reflexivity.
+Qed.
+
+Lemma top_execute_eq d k t : 0 <= k -> height t <> 0 ->
+  top_execute d k 63 t = top_M2M d k t ++ top_M2L d k ++ top_L2L d k t.
+Proof.
+  intros Hk Hh. unfold top_execute.
+  destruct ((k <? 0) || (height t =? 0)) eqn:E; [lia|].
+  change (has 63 F_M2M) with true. change (has 63 F_M2L) with true. change (has 63 F_L2L) with true. reflexivity.
+Qed.
+
+Lemma win_of_bounds k j : -3 <= fst (win_of k j) /\ snd (win_of k j) <= 3.
+Proof. unfold win_of. destruct (k =? 0); [cbn; lia|]. destruct (j =? 3); cbn; lia. Qed.
+
+Theorem toptree_images_gen : forall d k t, (0 < d)%nat -> 0 <= k -> height t <> 0 ->
+  Permutation (top_run d k (top_execute d k 63 t))
+              (far_shifts d (fst (repetition_interval k)) (snd (repetition_interval k))).
+Proof.
+  intros d k t Hd Hk Hh. unfold top_run. rewrite top_execute_eq by assumption.
+  rewrite !fold_left_app.
+  (* upward *)
+  unfold top_M2M. cbn [fold_left].
+  pose proof (m_phase d Hd k (level1_children d t) (Z.to_nat k) ltac:(lia)) as H1. cbv zeta in H1.
+  replace (k + 3 - Z.of_nat (Z.to_nat k)) with 3 in H1 by lia.
+  set (st1 := fold_left _ (map _ (rev _)) _) in *. destruct H1 as (HL1 & HR1 & _ & HM1).
+  (* M2L *)
+  rewrite top_M2L_eq by exact Hk.
+  pose proof (m2l_fold d k (fun l => window_codes d (fst (win_of k l)) (snd (win_of k l))) (zrange 3 (k + 3))
+                (NoDup_zrange _ _) st1) as H2. cbv zeta in H2.
+  set (st2 := fold_left _ (map _ (zrange 3 (k + 3))) st1) in *. destruct H2 as (HM2 & HR2 & HLin & HLout).
+  assert (HL2 : forall j, 3 <= j <= k + 3 -> Permutation (tL st2 j) (lvl_region d k j)).
+  { intros j Hj. rewrite HLin by (apply In_zrange; exact Hj). rewrite HL1. cbn [app].
+    fold (csize k j). unfold lvl_region. destruct (win_of_bounds k j) as [B1 B2].
+    apply m2l_window; [apply csize_pos; lia|exact B1|exact B2|apply HM1; exact Hj]. }
+  (* downward *)
+  unfold top_L2L. rewrite fold_left_app. cbn [fold_left tstep tres].
+  assert (Hlen : forall j v, In v (tL st2 j) -> length v = d).
+  { intros j v Hv. destruct (Z_le_dec 3 j) as [Ha|Ha]; [destruct (Z_le_dec j (k + 3)) as [Hb|Hb]|].
+    - apply (Permutation_in _ (HL2 j (conj Ha Hb))) in Hv. unfold lvl_region, region in Hv.
+      apply filter_In in Hv. destruct Hv as [Hv _]. apply In_cs in Hv. apply Hv.
+    - rewrite HLout, HL1 in Hv; [destruct Hv|]. rewrite In_zrange. lia.
+    - rewrite HLout, HL1 in Hv; [destruct Hv|]. rewrite In_zrange. lia. }
+  pose proof (l2l_fold d Hd k st2 (Z.to_nat k) Hlen) as H3. cbv zeta in H3.
+  replace (2 + Z.of_nat (Z.to_nat k)) with (k + 2) in H3 by lia.
+  replace (3 + Z.of_nat (Z.to_nat k)) with (k + 3) in H3 by lia.
+  set (st3 := fold_left _ (map _ (zrange 3 (k + 2))) st2) in *. destruct H3 as (_ & _ & HP).
+  rewrite HP. rewrite <- (window_telescope d k Hk).
+  apply perm_flat_map_pointwise. intros j Hj. apply In_zrange in Hj. apply HL2. exact Hj.
+Qed.
+
+(* the statement in the requested form; a tree without levels produces no call at all, hence [height t <> 0] *)
+Theorem toptree_images : forall d k t, (0 < d)%nat -> 0 <= k -> height t <> 0 ->
+  let (lo, hi) := repetition_interval k in
+  Permutation (top_run d k (top_execute d k 63 t))
+              (filter (fun s => negb (forallb (fun x => Z.abs x <=? 1) s)) (cube_shifts d lo hi)).
+Proof.
+  intros d k t Hd Hk Hh. pose proof (toptree_images_gen d k t Hd Hk Hh) as H.
+  unfold far_shifts in H. destruct (repetition_interval k) as [lo hi]. exact H.
+Qed.
+
+Theorem toptree_images_1d : forall k t, 0 <= k -> height t <> 0 ->
+  let (lo, hi) := repetition_interval k in
+  Permutation (top_run 1 k (top_execute 1 k 63 t))
+              (filter (fun s => negb (forallb (fun x => Z.abs x <=? 1) s)) (cube_shifts 1 lo hi)).
+Proof. intros k t. apply toptree_images. lia. Qed.
+
+(* without the height hypothesis the statement is false: *)
+Example toptree_images_needs_height :
+  top_run 1 0 (top_execute 1 0 63 {| t_levels := []; t_pgroups := [] |}) = []
+  /\ far_shifts 1 (-3) 3 = [[-3]; [-2]; [2]; [3]].
+Proof. split; reflexivity. Qed.
+
+(* ------------------------------------------------------------------ *)
+(* the 1-D heart, on lists of integers                                 *)
+(* ------------------------------------------------------------------ *)
+(* window [wl,wh] of cells of size s (origin 0, each tiling [0,s)), minus the adjacent cells -1,0,1 *)
+Definition win1 (wl wh s : Z) : list Z :=
+  flat_map (fun o => if Z.abs o <=? 1 then [] else map (fun r => o * s + r) (zrange 0 (s - 1))) (zrange wl wh).
+(* level 3 (size 2^k): window [-3,2]; levels 4..k+3 (sizes 2^(k-1)..1): window [-2,3]; k = 0: the single window [-3,3] *)
+Definition tele1 (k : Z) : list Z :=
+  if k =? 0 then win1 (-3) 3 1
+  else flat_map (fun j => if j =? 3 then win1 (-3) 2 (2 ^ (k + 3 - j)) else win1 (-2) 3 (2 ^ (k + 3 - j))) (zrange 3 (k + 3)).
+
+Definition sing (x : Z) : list Z := [x].
+
+Lemma flat_map_sing {A B} (f : A -> B) l : flat_map (fun v => [f v]) l = map f l.
+Proof. induction l as [|a l IH]; cbn [flat_map map app]; [reflexivity|]. rewrite IH. reflexivity. Qed.
+
+Lemma map_flat_map {A B C} (f : B -> C) (g : A -> list B) l : map f (flat_map g l) = flat_map (fun a => map f (g a)) l.
+Proof. induction l as [|a l IH]; cbn [flat_map map]; [reflexivity|]. rewrite map_app, IH. reflexivity. Qed.
+
+Lemma filter_map_comm {A B} (p : B -> bool) (g : A -> B) l : filter p (map g l) = map g (filter (fun a => p (g a)) l).
+Proof. induction l as [|a l IH]; cbn [filter map]; [reflexivity|]. rewrite IH. destruct (p (g a)); reflexivity. Qed.
+
+Lemma cube1 a b : cube_shifts 1 a b = map sing (zrange a b).
+Proof. unfold cube_shifts. cbn [repeat odometer map]. apply (flat_map_sing sing). Qed.
+
+Lemma region_1 s wl wh : 0 < s -> Permutation (map sing (win1 wl wh s)) (region 1 s wl wh).
+Proof.
+  intros Hs. rewrite <- (m2l_tiles 1 s (cube_shifts 1 0 (s - 1)) wl wh Hs (Permutation_refl _)).
+  rewrite !cube1. rewrite flat_map_map. unfold win1. rewrite map_flat_map.
+  erewrite flat_map_ext_in; [apply Permutation_refl|]. intros o _. cbv beta.
+  unfold too_close, sing. cbn [forallb map]. rewrite andb_true_r.
+  destruct (Z.abs o <=? 1); cbn [negb map]; [reflexivity|].
+  unfold shift_by. rewrite !map_map. apply map_ext. intros r. reflexivity.
+Qed.
+
+Lemma tele1_eq k : 0 <= k ->
+  tele1 k = flat_map (fun j => win1 (fst (win_of k j)) (snd (win_of k j)) (csize k j)) (zrange 3 (k + 3)).
+Proof.
+  intros Hk. unfold tele1, win_of, csize. destruct (k =? 0) eqn:E.
+  - assert (k = 0) as -> by lia. change (zrange 3 (0 + 3)) with [3]. cbn [flat_map]. rewrite app_nil_r. reflexivity.
+  - apply flat_map_ext_in. intros j _. destruct (j =? 3); reflexivity.
+Qed.
+
+Theorem window_telescope_1d : forall k, 0 <= k ->
+  let (lo, hi) := repetition_interval k in
+  Permutation (tele1 k) (filter (fun x => negb (Z.abs x <=? 1)) (zrange lo hi)).
+Proof.
+  intros k Hk. pose proof (window_telescope 1 k Hk) as H. unfold far_shifts in H.
+  destruct (repetition_interval k) as [lo hi]. cbn [fst snd] in H.
+  assert (H1 : Permutation (map sing (tele1 k)) (map sing (filter (fun x => negb (Z.abs x <=? 1)) (zrange lo hi)))).
+  { rewrite tele1_eq by exact Hk. rewrite map_flat_map.
+    rewrite (perm_flat_map_pointwise _ (lvl_region 1 k)).
+    - rewrite H. rewrite cube1, filter_map_comm.
+      erewrite filter_ext; [apply Permutation_refl|]. intros x. unfold sing. cbn [forallb]. rewrite andb_true_r. reflexivity.
+    - intros j Hj. apply In_zrange in Hj. apply region_1. apply csize_pos. lia. }
+  apply (Permutation_map (hd 0)) in H1. rewrite !map_map in H1. unfold sing in H1. cbn [hd] in H1.
+  rewrite !map_id in H1. exact H1.
+Qed.
+
+Print Assumptions interval_matches.
+Print Assumptions window_telescope_1d.
+Print Assumptions window_telescope.
+Print Assumptions toptree_images_1d.
+Print Assumptions toptree_images.
